@@ -46,7 +46,7 @@ CLAIMED = {
 m={
  "version":1,
  "setup_cmd":"tools/setup.sh",
- "hooks":{"guard":"YAEP_VERIF","enable":"tools/build_lib.sh compiles /repo/src/*.c with -DYAEP_VERIF (observation-only hooks inside #ifdef YAEP_VERIF; a harness-set limit can end an exploding recovery search through the ordinary YAEP_NO_MEMORY exit)","baseline_off_cmd":"tools/baseline_off.sh","source_commits":hooks(),"add_only":True},
+ "hooks":{"guard":"YAEP_VERIF","enable":"tools/build_lib.sh compiles /repo/src/*.c with -DYAEP_VERIF (observation-only hooks inside #ifdef YAEP_VERIF; harness-set limits can end an exploding recovery search or an exploding all-parses translation through the ordinary YAEP_NO_MEMORY exit; the same builds also define YAEP_DEBUG, i.e. keep the assertions of yaep.c)","baseline_off_cmd":"tools/baseline_off.sh","source_commits":hooks(),"add_only":True},
  "engines":[{"name":"libfuzzer","path":"src/fuzz","serves_properties":["C12"],"kind_free_text":"libFuzzer targets fuzz_desc and fuzz_api built by tools/build_fuzz.sh, run by ./check C12"},{"name":"pbt","path":"src/pbt_main.cpp","serves_properties":sorted(CLAIMED),"kind_free_text":"rapidcheck property-based driver: choice-sequence generators (all randomness from rapidcheck, so shrinking and seeds work), fork-server isolation of every case, bounded shrinking, plain-text replay files, 3x replay confirmation"}],
  "checks":[],
  "not_applicable":[],
